@@ -174,6 +174,43 @@ func init() {
 		}
 		return nil
 	}
+	// sort.Sort / sort.Stable through the sort.Interface methods (insertion sort; keys are distinct or ties keep order)
+	ifaceSort := func(e *Exec, a []Value) []Value {
+		iv := a[0].(IfaceV)
+		call := func(name string, args ...Value) []Value {
+			fn := e.methodOf(iv.T, name, nil)
+			if fn == nil {
+				e.unsupported("sort.Interface method " + name)
+			}
+			return e.callFn(fn, append([]Value{iv.V}, args...))
+		}
+		nT := call("Len")[0].(*Term)
+		if !nT.IsConst() {
+			e.unsupported("sort over a collection of symbolic length")
+		}
+		n := int(nT.N.Int64())
+		for i := 1; i < n; i++ {
+			for j := i; j > 0; j-- {
+				lt := call("Less", BVU(uint64(j), 64), BVU(uint64(j-1), 64))[0].(*Term)
+				if !e.decideBool(lt) {
+					break
+				}
+				call("Swap", BVU(uint64(j), 64), BVU(uint64(j-1), 64))
+			}
+		}
+		return nil
+	}
+	models["sort.Sort"] = ifaceSort
+	models["sort.Stable"] = ifaceSort
+	models["strings.Compare"] = func(e *Exec, a []Value) []Value {
+		x, y := asTerm(e, a[0]), asTerm(e, a[1])
+		if x.IsStrLit() && y.IsStrLit() {
+			return []Value{BVI(int64(strings.Compare(x.Str, y.Str)), 64)}
+		}
+		ox, oy := App("str.ord", IntSort, x), App("str.ord", IntSort, y)
+		e.assertPC(Eq(Eq(ox, oy), strEq(x, y)))
+		return []Value{Ite(ILt(ox, oy), BVI(-1, 64), Ite(strEq(x, y), BVI(0, 64), BVI(1, 64)))}
+	}
 	models["sort.SliceStable"] = stable
 	models["sort.Slice"] = stable
 
